@@ -12,8 +12,8 @@ import time
 
 VERIF = os.path.dirname(os.path.dirname(os.path.abspath(__file__)))
 REPO = os.environ.get("IOPT_VERIF_REPO", "/repo")
-OUT = os.path.join(VERIF, "out")
-EVIDENCE = os.path.join(VERIF, "evidence")
+OUT = os.path.join(os.environ["IOPT_VERIF_EVIDENCE_DIR"], "out") if os.environ.get("IOPT_VERIF_EVIDENCE_DIR") else os.path.join(VERIF, "out")
+EVIDENCE = os.environ.get("IOPT_VERIF_EVIDENCE_DIR") or os.path.join(VERIF, "evidence")   # the env override is used only by tools/seeded.sh
 
 
 def use_repo():
